@@ -217,7 +217,10 @@ def _wrappers(cx: Ctx, env, ty, depth, inner_fn):
         n = cx.int_(1, 3)
         pos = cx.int_(0, n - 1)
         tys = [(ty if i == pos else any_type(cx, env, 1)) for i in range(n)]
-        kind = cx.pick(["T", "L", "R"] if cfg.lists else ["T", "R"])
+        kind = cx.pick((["T", "L", "R"] if cfg.lists else ["T", "R"]) + (["D"] if cfg.record_ctor else []))
+        if kind == "D":  # field of a record built on the spot with a dataclass / NamedTuple constructor (sugar in any position)
+            keys = [f"f_{chr(97 + i)}" for i in range(n)]
+            return f"{gen(cx, env, ('D', tuple(zip(keys, tys))), depth - 1)}.{keys[pos]}"
         if kind == "R":
             keys = [f"f_{chr(97 + i)}" for i in range(n)]
             lit = gen(cx, env, ("R", tuple(zip(keys, tys))), depth - 1)
@@ -329,7 +332,7 @@ def _scalar(cx: Ctx, env, ty, depth):
             if cx.chance(5):
                 return f"hscale({gen(cx, env, ty, depth - 1)})"
             a, b = gen(cx, env, ty, depth - 1), gen(cx, env, ty, depth - 1)
-            return cx.pick([f"hadd({a}, {b})", f"hadd(b={b}, a={a})", f"hadd({a})", f"hsecond({a}, {b})"])
+            return cx.pick([f"hadd({a}, {b})", f"hadd(b={b}, a={a})", f"hadd({a})", f"hsecond({a}, {b})", f"hsub({a}, {b})", f"hsub({a}, {b})", f"hsub(b={b}, a={a})"])
         if c == 7:
             return f"abs({gen(cx, env, ty, depth - 1)})"
         p = pick_path(cx, env, ty)
@@ -510,7 +513,7 @@ def _called_lambda(cx: Ctx, env, ty, depth):
 
 def _odd(cx: Ctx, env, ty, depth):
     """literal projections with variable / negative / slice / out-of-range / absent-key selectors (C18)"""
-    c = cx.int_(0, 5)
+    c = cx.int_(0, 6)
     n = cx.int_(2, 3)
     kind = cx.pick(["T", "L"])
     items = [gen(cx, env, ty, depth - 1) for _ in range(n)]
@@ -524,6 +527,8 @@ def _odd(cx: Ctx, env, ty, depth):
         return f"{lit}[{cx.int_(0, 1)}:{cx.int_(1, n)}][0]"
     if c == 3:  # planted out of range constant index
         return f"{lit}[{n + cx.int_(0, 2)}]"
+    if c == 6:  # a constant that is not an int index: bool works in python, the others make python raise TypeError
+        return f"{lit}[{cx.pick(['True', 'False', 'True', repr('f_a'), '0.5', 'None', repr('0')])}]"
     d = "{" + ", ".join(f"'f_{chr(97 + i)}': {it}" for i, it in enumerate(items)) + "}"
     if c == 4:  # absent key
         return f"{d}['f_z']" if cx.chance(5) else f"{d}.f_z"
